@@ -356,7 +356,7 @@ func checkC13(c *vkit.Ctx) {
 		c13Concurrent(c)
 		return
 	}
-	c.P.Rule = "part (i): ALL ordered pairs of line sequences over {a,b,c} of length 0..5 (364^2 = 132496 pairs), NO_COLOR, complete; part (ii): seeded random pairs - near pairs (one hostile edit), independent texts, single-line, >10 lines (range headers), 200-600 lines with heavily repeated lines (popular-line heuristic), 1000-12000 lines around round sizes with few edits incl. a line duplicated next to itself or one line of a run dropped, lines starting with `- `/`+ `/`@@`, colours on and off; part (iii): batches of 4-11 comparisons running at once, all with the same received text and different stored texts; every pair goes through the real prettyDiff and the real opcode generator, an independent parser/checker decides all clauses; non-trivial = pair with different texts; distinct by hash(stored, received, colour)"
+	c.P.Rule = "part (i): ALL ordered pairs of line sequences over {a,b,c} of length 0..5 (364^2 = 132496 pairs), NO_COLOR, complete; part (ii): seeded random pairs - near pairs (one hostile edit), independent texts, single-line, >10 lines (range headers), 200-600 lines with heavily repeated lines (popular-line heuristic), 1000-12000 lines around round sizes with few edits incl. a line duplicated next to itself or one line of a run dropped, lines starting with `- `/`+ `/`@@`, colours on and off; part (iii): batches of 4-11 comparisons running at once, all with the same received text and different stored texts; part (iv): Match*-level - a text stored through one of the five entry points, a second text failing against it in the next simulated process (NO_COLOR), the message handed to t.Error (footer stripped) judged by the same report clauses against the text the snapshot file holds; every pair goes through the real prettyDiff and the real opcode generator, an independent parser/checker decides all clauses; non-trivial = pair with different texts; distinct by hash(stored, received, colour)"
 	all := seqs()
 	total := len(all) * len(all)
 	done := 0
